@@ -293,7 +293,7 @@ func genNocopyCase(t *rapid.T) NocopyCase {
 func TestC15_Random(t *testing.T) {
 	rec := evid.New("C15", "c15_random", "rapid: direct level = 1..6 consecutive WriteStringNocopy/WriteBinaryNocopy into one linear buffer (exact size or with slack), value lengths 0..12288 with emphasis on 4080..4112, 8176..8208; struct level = Base/BaseResp/ApplicationException with every field and 0..3 map entries drawn from the same length distribution; nil and non-nil direct writer; oracle = independent splice of the recorded (slice, remainCap) pairs into the linear buffer vs the copying path (validity predicate when the map has >= 2 entries), length accounting, every direct piece is one of the caller's values and fits; second opinion from the repository's netpoll test double; non-trivial = >= 2 direct writes in one buffer or a length within 1 of a 4096 multiple")
 	defer rec.Flush()
-	runRapid(t, rec, "c15_nocopy", evid.Pick(25000, 40000), genNocopyCase, checkNocopy)
+	runRapid(t, rec, "c15_nocopy", evid.Pick(25000, 300000), genNocopyCase, checkNocopy)
 }
 
 func TestC15_Windows(t *testing.T) {
